@@ -56,7 +56,7 @@ def dask_case(draw, names=None):
     sizes = dict(dims)
     sizes.update(freq=len(fg["f"]), dir=dg["n"])
     return dict(fg=fg, dg=dg, dims=dims, specs=specs, winds=winds, op=op, more=more, dtype=draw(st.sampled_from(["float64", "float32"])),
-                chunks=draw(chunking(sizes)), sched=draw(st.sampled_from(SCHED)))
+                chunks=draw(chunking(sizes)), sched=draw(st.sampled_from(SCHED)), perm=draw(st.one_of(st.none(), st.permutations(list(range(len(dims) + 2))))))
 
 
 def _compute(obj, sched):
@@ -80,6 +80,12 @@ def check_dask(case, ctx):
     x = gen.build_dataarray(case["fg"], case["dg"], case["specs"], case["dims"], dtype=case["dtype"])
     aux = winds_of(case, x)
     chunks = {d: (tuple(c) if isinstance(c, list) else c) for d, c in case["chunks"].items()}
+    if case.get("perm"):
+        # the same data stored with another dimension order (spectral dims need not come last)
+        order = [x.dims[i] for i in case["perm"]]
+        tr = x.transpose(*order)
+        x = tr.copy(data=np.ascontiguousarray(tr.values))
+        ctx.label("dims-permuted", "freq-not-after-lead" if list(x.dims).index("freq") < len(case["dims"]) else "freq-after-lead")
     xd = x.chunk(chunks)
     auxd = {k: v.chunk({d: c for d, c in chunks.items() if d in v.dims}) for k, v in aux.items()}
     split_spec = any(chunks[d] != -1 for d in ("freq", "dir"))
